@@ -159,6 +159,56 @@ Proof.
   simpl. rewrite M. reflexivity.
 Qed.
 
+(* ---- the deadline is ABSOLUTE: k only counts down.  An implementation that waits in a loop and
+   starts a fresh timer whenever it is woken on a group that has been re-armed (a release followed
+   by an Inc before its re-check) is a different automaton: the countdown restarts at k0 when the
+   attempt finds its channel closed.  It has no bound: for every n there are n memories under
+   which it gives no answer (release + re-arm every k0 attempts), whereas [tw_bounded] answers
+   within k + 2 under ALL memories.  The deadline probe of the harness (-mode deadline, judged by
+   WGJudge.dl_ok) drives the real code down this path. *)
+Definition twr_step (k0 : nat) (l : tloc) (s : shared) : tloc + tret :=
+  match l with
+  | TW0 k => inl (TW1 (chn s) k)
+  | TW1 x k =>
+      if memb x (closed s) then
+        (if Z.eqb (cnt s) 0 then inr TNil else inl (TW1 (chn s) k0))    (* re-check, fresh timer *)
+      else match k with O => inr TDeadline | S k' => inl (TW1 x k') end
+  end.
+
+Fixpoint twr_run (k0 : nat) (l : tloc) (env : list shared) : option tret :=
+  match env with
+  | [] => None
+  | s :: rest =>
+      match twr_step k0 l s with
+      | inr r => Some r
+      | inl l' => twr_run k0 l' rest
+      end
+  end.
+
+(* channel 1 has been released (closed) and the group re-armed with channel 2, and so on *)
+Definition rearmed (i : nat) : shared :=
+  Shared i 1 (S (S i)) (seq 0 (S (S i))) (S (S (S i))).
+
+Lemma twr_no_answer : forall k0 n i,
+  twr_run (S k0) (TW1 (S i) (S k0)) (map rearmed (seq i n)) = None.
+Proof.
+  intros k0 n. induction n as [|n IH]; intro i; [reflexivity|].
+  cbn [seq map twr_run twr_step].
+  assert (M : memb (S i) (closed (rearmed i)) = true).
+  { unfold rearmed, memb. cbn [closed]. apply existsb_exists. exists (S i). split.
+    - apply in_seq. lia.
+    - apply Nat.eqb_refl. }
+  rewrite M. cbn [rearmed cnt chn Z.eqb]. apply IH.
+Qed.
+
+Theorem twr_unbounded : forall k0 n, exists env,
+  List.length env = n /\ twr_run (S k0) (TW1 1 (S k0)) env = None.
+Proof.
+  intros k0 n. exists (map rearmed (seq 0 n)). split.
+  - rewrite map_length, seq_length. reflexivity.
+  - apply twr_no_answer.
+Qed.
+
 (* ---------------------------------------------------------------- the shape of the source *)
 Record timed_shape := TimedShape {
   ts_func : string;
